@@ -14,6 +14,7 @@ BUDGET_A = 150000          # >= 10x the largest constant observed on the unchang
 BUDGET_B = 3000            # >= 10x the steepest observed slope (~310 events per byte)
 MAX_DEPTH = 64             # deepest observed: 26
 GROWTH_LIMIT = 2.5
+QUADRATIC_DOMINANCE = 2.0  # fitted quadratic term at 64 KiB, as a multiple of the fitted linear work of the same shape there
 BASE = {'quick': 128, 'thorough': 256}
 DOUBLINGS = {'quick': 3, 'thorough': 5}
 FUZZ = {'quick': 10, 'thorough': 400}
@@ -330,7 +331,14 @@ class Check(core.CheckBase):
                 far = 65536.0
                 predicted = y3 + slope * (far - x3) + coefficient * (far - x3) ** 2
                 share_now = coefficient * x3 ** 2 / max(1.0, y3)
-                if share_now >= 0.05 and predicted > BUDGET_A + BUDGET_B * far:
+                linear_far = y3 + slope * (far - x3)
+                dominance = coefficient * (far - x3) ** 2 / max(1.0, linear_far)
+                worst = self.notes.setdefault('max_quadratic_dominance', [0.0, None])
+                if share_now >= 0.05 and dominance > worst[0]:
+                    worst[0], worst[1] = round(dominance, 3), label
+                # over the global budget at 64 KiB, or - for a class whose own constant is small - a quadratic term that
+                # would be several times the class's own linear work there
+                if share_now >= 0.05 and (predicted > BUDGET_A + BUDGET_B * far or dominance > QUADRATIC_DOMINANCE):
                     found.append(self.violation(
                         'super-linear|%s' % label,
                         '%s: %s shape: steps %r at %r bytes bend upwards (quadratic term %.3g*L^2, %.0f%% of the work at %d bytes); '
@@ -455,4 +463,5 @@ class Check(core.CheckBase):
     def finish(self):
         return {'classes': sorted(self.notes.get('classes', set())), 'budget': {'A': BUDGET_A, 'B': BUDGET_B},
                 'max_steps_per_byte_observed_per_shard': [self.notes.get('max_slope', 0)],
-                'growth_limit_per_doubling': GROWTH_LIMIT}
+                'growth_limit_per_doubling': GROWTH_LIMIT,
+                'max_quadratic_dominance_observed_per_shard': [self.notes.get('max_quadratic_dominance', [0.0, None])]}
